@@ -2,6 +2,7 @@ package codech26x
 
 import (
 	"fmt"
+	"reflect"
 	"strings"
 
 	"github.com/pion/rtp"
@@ -206,6 +207,11 @@ func runFault(c *corr.Ctx, s *cu.Spec, in *FaultInput, name string) {
 			}
 		}
 		out += fmt.Sprintf(" ret %d", cu.Retained(dec.State()))
+		// hypothesis of the H264 C07 theorems: packets derived from valid frames never switch Annex-B mode on
+		if v := reflect.ValueOf(dec.State()).Elem().FieldByName("annexBMode"); v.IsValid() && v.Bool() {
+			c.Violate(corr.Violation{Property: "C07", Clause: "a decoder never remains desynchronised", Key: s.Name + "-annexb-on-valid-stream",
+				Where: "pkg/format/rtp" + s.Name, Input: in, Detail: fmt.Sprintf("annexBMode switched on at stream position %d of a stream made of valid frames' packets", j)})
+		}
 		op(fmt.Sprintf("dec %d %d %s %s", t.p.SequenceNumber, t.p.Timestamp, corr.B(t.p.Marker), corr.Hex(t.p.Payload)), out)
 	}
 	for fi := range fs {
